@@ -18,12 +18,12 @@ fn iso3v(i: &Iso3) -> Value {
 fn meas2(c: &Curve2, qs: &[Point2], fs: &[f64]) -> Value {
     let at: Vec<Value> = fs.iter().map(|f| match c.at_length(f * c.length()) { Some(s) => json!({"p": hp2(&s.point()), "d": hv2(&s.direction().into_inner()), "n": hv2(&s.normal().into_inner())}), None => Value::Null }).collect();
     let cl: Vec<Value> = qs.iter().map(|q| { let s = c.at_closest_to_point(q); json!({"p": hp2(&s.point()), "l": hx(s.length_along()), "dist": hx(c.dist_to_point(q))}) }).collect();
-    json!({"length": hx(c.length()), "points": c.points().iter().map(hp2).collect::<Vec<_>>(), "closed": c.is_closed(), "at": at, "closest": cl})
+    json!({"length": hx(c.length()), "points": c.points().iter().map(hp2).collect::<Vec<_>>(), "closed": c.is_closed(), "at": at, "closest": cl, "tol": hx(c.tol())})
 }
 fn meas3(c: &Curve3, qs: &[Point3], fs: &[f64]) -> Value {
     let at: Vec<Value> = fs.iter().map(|f| match c.at_length(f * c.length()) { Some(s) => json!({"p": hp3(&s.point()), "d": hv3(&s.direction().into_inner())}), None => Value::Null }).collect();
     let cl: Vec<Value> = qs.iter().map(|q| { let s = c.at_closest_to_point(q); json!({"p": hp3(&s.point()), "l": hx(s.length_along()), "dist": hx(c.dist_to_point(q))}) }).collect();
-    json!({"length": hx(c.length()), "points": c.points().iter().map(hp3).collect::<Vec<_>>(), "at": at, "closest": cl})
+    json!({"length": hx(c.length()), "points": c.points().iter().map(hp3).collect::<Vec<_>>(), "at": at, "closest": cl, "tol": hx(c.tol())})
 }
 
 pub fn run(k: &str, c: &Value) -> Value {
@@ -41,7 +41,7 @@ pub fn run(k: &str, c: &Value) -> Value {
             let spt = sp.transformed(&t);
             let seg = Segment2::try_new(qs[0], qs[1]).ok().map(|s| { let st = s.transform_by(&t); json!([hp2(&st.a), hp2(&st.b)]) });
             json!({"iso": iso2v(&t), "a": meas2(&curve, &qs, &fs), "b": meas2(&tc, &tq, &fs), "tq": tq.iter().map(hp2).collect::<Vec<_>>(),
-                   "back": back.points().iter().map(hp2).collect::<Vec<_>>(),
+                   "back": back.points().iter().map(hp2).collect::<Vec<_>>(), "back_tol": hx(back.tol()),
                    "sp": {"proj": hx(sp.scalar_projection(&qs[1])), "planar": hx(sp.planar_distance(&qs[1])), "tproj": hx(spt.scalar_projection(&tq[1])), "tplanar": hx(spt.planar_distance(&tq[1])),
                           "tp": hp2(&spt.point), "tn": hv2(&spt.normal.into_inner()), "n": hv2(&sp.normal.into_inner())}, "seg": seg})
         }
@@ -54,7 +54,7 @@ pub fn run(k: &str, c: &Value) -> Value {
             let tq: Vec<Point3> = qs.iter().map(|q| t * q).collect();
             let back = tc.transformed_by(&t.inverse());
             json!({"iso": iso3v(&t), "a": meas3(&curve, &qs, &fs), "b": meas3(&tc, &tq, &fs), "tq": tq.iter().map(hp3).collect::<Vec<_>>(),
-                   "back": back.points().iter().map(hp3).collect::<Vec<_>>()})
+                   "back": back.points().iter().map(hp3).collect::<Vec<_>>(), "back_tol": hx(back.tol())})
         }
         "c03.geom3" => {
             let t = iso3(&c["iso"]);
